@@ -25,7 +25,7 @@ np.set_printoptions(legacy="1.25")      # plain float repr in messages
 META = dict(
     level="exploration",
     technique="deviation-bounded exhaustive lattice of Lagrangian parameters against independently written textbook mass matrices (numpy, failures confirmed in 50-digit mpmath)",
-    text="All assignments with at most d (2 quick / 3 thorough) simultaneous deviations from a base point over 45 parameter dimensions (tan beta 0.5..200, both signs of mu/M1/M2/M3, soft masses squared of either sign per sector and generation, trilinears, Yukawas, gauge couplings, vev, m_A^2 incl. m_A<m_Z, m_A~m_Z(1+-1e-7) and negative values) are evaluated; for each, all 17 sectors are reconstructed from the reported masses and mixings and compared with the textbook matrix (1e-10 ||M||), unitarity (1e-12), ordering, Goldstone position/mass, Higgs sum rules, chargino/neutralino trace and determinant relations, tachyon list == monitored sectors with a negative reference eigenvalue, and bitwise generation exchange. In addition the two public spectrum entry points of MSSMNoFV_onshell are driven with force_output: calculate_masses() on GM2Calc-type points and convert_to_onshell() on SLHA-type points (pole masses of a GM2Calc-type point + DR-bar parameters), 4 base points x all assignments with <= d deviations over tan beta, negative/zero/small/huge soft masses of monitored and unmonitored sectors, large trilinears, large or negative mu, negative M1/M2 and - for the conversion - small, zero, negative or far-off INITIAL values of the entries it overwrites (ml2(1,1), me2(1,1), mu, M1, M2); each case is run on a fresh object, a second fresh object and on the re-used first object. After every call the whole oracle above is applied to the final DR-bar spectrum against the matrices rebuilt from the FINAL Lagrangian parameters (getters after the call), in particular reported tachyons == monitored sectors with a negative squared mass; two fresh runs must be bitwise identical, and the re-used object must give the same report whenever it reached the same solution without a convergence warning. Says nothing about parameter values off the lattice or more than d simultaneous deviations.",
+    text="All assignments with at most d (2 quick / 3 thorough) simultaneous deviations from a base point over 45 parameter dimensions (tan beta 0.5..200, both signs of mu/M1/M2/M3, soft masses squared of either sign per sector and generation, trilinears, Yukawas, gauge couplings, vev, m_A^2 incl. m_A<m_Z, m_A~m_Z(1+-1e-7) and negative values) are evaluated; for each, all 17 sectors are reconstructed from the reported masses and mixings and compared with the textbook matrix (1e-10 ||M||), unitarity (1e-12), ordering, Goldstone position/mass, Higgs sum rules, chargino/neutralino trace and determinant relations, tachyon list == monitored sectors with a negative reference eigenvalue, and bitwise generation exchange. In addition the two public spectrum entry points of MSSMNoFV_onshell are driven with force_output: calculate_masses() on GM2Calc-type points and convert_to_onshell() on SLHA-type points (pole masses of a GM2Calc-type point + DR-bar parameters), 4 base points x all assignments with <= d deviations over tan beta, negative/zero/small/huge soft masses of monitored and unmonitored sectors, large trilinears, large or negative mu, negative M1/M2 and - for the conversion - small, zero, negative or far-off INITIAL values of the entries it overwrites (ml2(1,1), me2(1,1), mu, M1, M2); each case is run on a fresh object, a second fresh object and on the re-used first object. After every call the whole oracle above is applied to the final DR-bar spectrum against the matrices rebuilt from the FINAL Lagrangian parameters (getters after the call), in particular reported tachyons == monitored sectors with a negative squared mass; two fresh runs must be bitwise identical, and the re-used object must give the same report whenever it reached the same solution without a convergence warning. Every 5th case of that lattice is additionally run with three other SM input sets in five orders of the setter calls (canonical; tan(beta) before the SM inputs; SM inputs last; every setter reversed; SM inputs overwritten after tan(beta)): the whole oracle applies to each, the calculate_masses() result must not depend on the order (1e-10 relative on all parameters and masses), and calling calculate_masses() once more on the same object must change nothing. Says nothing about parameter values off the lattice or more than d simultaneous deviations.",
     note="trusted: numpy eigvalsh / mpmath eigsy, the textbook formulas in oracle/mssm_tree.py (validated against the unchanged tree: agreement <= 1e-15 ||M|| on every lattice point)",
     design_ref="3/C04")
 
@@ -482,9 +482,10 @@ def entry_dimensions(mode):
 INIT_IDX = {"init:ml2(1,1)": 0, "init:me2(1,1)": 1, "init:Mu": 2, "init:M1": 3, "init:M2": 4}
 
 
-def entry_case(base, mode, dev):
+def entry_case(base, mode, dev, order=0, sm=0):
     p = mssmrun.os_point(base, 10.0, ENTRY_SIGNS, force=1.0)
     p = {k: (list(v) if isinstance(v, list) else v) for k, v in p.items()}
+    p["order"], p["sm"] = order, sm
     init = [NAN] * 5
     for nm, val in dev:
         if nm == "tb":
@@ -515,36 +516,84 @@ def enumerate_entry(dmax):
                         yield base, mode, tuple((D[i][0], D[i][1][c]) for i, c in zip(dims, choice))
 
 
+ORDERS = [0, 1, 2, 3, 4]        # order of the setter calls, see setup_os() in harness/mssm.cpp
+ORDER_STRIDE = 5                # every 5th case of the entry lattice is run in all orders with a non-default SM input set
+
+
+def enumerate_entry_orders(dmax):
+    """groups of len(ORDERS) consecutive jobs: the same case in every set-up order, SM input set 1..3 cycling"""
+    for i, (base, mode, dev) in enumerate(enumerate_entry(dmax)):
+        if i % ORDER_STRIDE == 0:
+            sm = 1 + (i // ORDER_STRIDE) % 3
+            for o in ORDERS:
+                yield base, mode, dev, o, sm
+
+
+def _colnames(lay):
+    out = [None] * lay["__n__"][0]
+    for n, (off, ln) in lay.items():
+        for c in range(off, off + ln):
+            out[c] = n
+    return out
+
+
+def _differs(x, y, names):
+    """first parameter / mass that differs by more than 1e-10 relative (+ 1e-9 GeV), or None.  Higgs and Goldstone
+    masses: eigenvalues of matrices formed as (mH^2 + mu^2) with entries ~ m_A^2 + mu^2, defined to eps (m_A^2 + mu^2)
+    in the squared mass only (tan(beta) = vu/vd differs by an ulp between set-up orders)"""
+    tol = 1e-10 * np.maximum(np.abs(x), np.abs(y)) + 1e-9
+    i = {n: names.index(n) for n in ("Mu", "BMu", "vd", "vu")}
+    hs = abs(x[i["BMu"]]) * (x[i["vd"]] ** 2 + x[i["vu"]] ** 2) / abs(x[i["vd"]] * x[i["vu"]]) + x[i["Mu"]] ** 2
+    for c, n in enumerate(names[:len(x)]):
+        if n in ("Mhh", "MAh", "MHpm", "MChargedHiggs", "MPseudoscalarHiggs"):
+            tol[c] += 128 * EPS * hs / max(abs(x[c]), abs(y[c]), 1e-300)
+    bad = np.nonzero(~(np.abs(x - y) <= tol))[0]
+    if len(bad) == 0:
+        return None
+    c = int(bad[0])
+    return names[c], float(x[c]), float(y[c])
+
+
 def _entry_worker(job):
     lay = mssmrun.layout("plain")["T"]
+    names = _colnames(lay)
+    ncmp = lay["ZD"][0]              # Lagrangian parameters and all masses (mixing matrices are covered by the reconstruction clause)
+    job = [tuple(j) + (0, 0) if len(j) == 3 else tuple(j) for j in job]
     cases = [entry_case(*j) for j in job]
     vals, _, probs, gx = mssmrun.run_spec(cases, "plain")
+    NR = 4
     tagname = ("calculate_masses", "convert_to_onshell")
-    runname = ("fresh", "fresh-again", "reused-object")
+    runname = ("fresh", "fresh-again", "second-call-without-setting", "reused-object")
     fails, st = [], {}
     ok = [i for i in range(len(probs)) if not probs[i].startswith("X:")]
     for i in range(len(probs)):
         if probs[i].startswith("X:"):
-            fails.append((job[i // 3], "entry:%s:exception-escapes" % tagname[job[i // 3][1]],
-                          "an exception escapes although force_output is set (%s run): %s" % (runname[i % 3], probs[i][3:])))
+            fails.append((job[i // NR], "entry:%s:exception-escapes" % tagname[job[i // NR][1]],
+                          "an exception escapes although force_output is set (%s run): %s" % (runname[i % NR], probs[i][3:])))
     keys = set()
     if ok:
         F, st, cls, d = check_block(vals[ok], [probs[i] for i in ok], [gx[i] for i in ok], lay)
         for i, key, what, sector, kind in F.items:
             gi = ok[i]
-            j = job[gi // 3]
-            fails.append((j, "entry:%s:%s" % (tagname[j[1]], key), "%s  {after %s(), %s run}" % (what, tagname[j[1]], runname[gi % 3])))
+            j = job[gi // NR]
+            fails.append((j, "entry:%s:%s" % (tagname[j[1]], key), "%s  {after %s(), %s run}" % (what, tagname[j[1]], runname[gi % NR])))
         for i, c in zip(ok, cls):
-            keys.add((tagname[job[i // 3][1]],) + tuple(c))
+            keys.add((tagname[job[i // NR][1]], "order%d" % job[i // NR][3]) + tuple(c))
         st["entry_points_with_tachyon_report"] = sum(1 for c in cls if c[0])
     nwarn = ndiffsol = 0
     # the same input must give the same report: twice on fresh objects (and identical numbers), and on a re-used object
     for c in range(len(job)):
-        a, b, r = 3 * c, 3 * c + 1, 3 * c + 2
+        a, b, s2, r = NR * c, NR * c + 1, NR * c + 2, NR * c + 3
         tn = tagname[job[c][1]]
         if probs[a] != probs[b] or vals[a].tobytes() != vals[b].tobytes():
             fails.append((job[c], "entry:%s:not-reproducible" % tn, "two fresh objects with the same input give %r / %r (numbers identical: %s)"
                           % (probs[a], probs[b], vals[a].tobytes() == vals[b].tobytes())))
+        # calculate_masses() a second time on the same object, nothing set in between, must change nothing
+        if job[c][1] == 0 and not probs[b].startswith("X:") and not probs[s2].startswith("X:"):
+            df = _differs(vals[b, :ncmp], vals[s2, :ncmp], names)
+            if df or probs[b] != probs[s2]:
+                fails.append((job[c], "entry:%s:second-call-changes:%s" % (tn, df[0] if df else "report"),
+                              "a second calculate_masses() on the same object changes %s" % (("%s from %r to %r" % df) if df else "the report from %r to %r" % (probs[b], probs[s2]))))
         warned = any(gx[i][1] == "W" for i in (a, r))
         nwarn += warned
         # a convergence warning means the final parameters are not determined by the input (the iteration stopped
@@ -559,9 +608,28 @@ def _entry_worker(job):
         if probs[a] != probs[r] and not warned and same_solution:
             fails.append((job[c], "entry:%s:report-differs-on-reused-object" % tn,
                           "fresh object reports %r, the same input on the re-used object reports %r" % (probs[a], probs[r])))
+    # order of the setter calls: the GM2Calc-type result must not depend on it (tan(beta) is stored as vu/vd, so
+    # 1e-10 relative rather than bitwise)
+    ref = {}
+    for c, j in enumerate(job):
+        if j[3] == 0:
+            ref[(j[0], j[1], j[2], j[4])] = c
+    nord = 0
+    for c, j in enumerate(job):
+        if j[3] == 0 or j[1] != 0 or (j[0], j[1], j[2], j[4]) not in ref:
+            continue
+        c0 = ref[(j[0], j[1], j[2], j[4])]
+        if probs[NR * c].startswith("X:") or probs[NR * c0].startswith("X:"):
+            continue
+        nord += 1
+        df = _differs(vals[NR * c0, :ncmp], vals[NR * c, :ncmp], names)
+        if df or probs[NR * c] != probs[NR * c0]:
+            fails.append((j, "entry:calculate_masses:order%d-dependent:%s" % (j[3], df[0] if df else "report"),
+                          "set-up order %d gives %s than the canonical order" % (j[3], ("%s = %r instead of %r" % (df[0], df[2], df[1])) if df else "the report %r instead of %r" % (probs[NR * c], probs[NR * c0]))))
     st = {k: v for k, v in st.items() if not isinstance(v, float)}
     st["entry_cases_with_convergence_warning(reused-report not required)"] = nwarn
     st["entry_cases_where_reused_object_converged_to_a_different_solution(no warning)"] = ndiffsol
+    st["entry_order_comparisons(order o vs canonical, calculate_masses)"] = nord
     return fails, st, sorted(keys), len(job), sum(1 for i in ok)
 
 
@@ -573,24 +641,33 @@ def run_entry(ctx, dmax):
             jobs.append(cur); cur = []
     if cur:
         jobs.append(cur)
+    cur = []
+    for j in enumerate_entry_orders(dmax):          # groups of len(ORDERS) stay in one chunk
+        cur.append(j)
+        if len(cur) == 30 * len(ORDERS):
+            jobs.append(cur); cur = []
+    if cur:
+        jobs.append(cur)
     n, nrows, keys, stats = 0, 0, set(), {}
     with mp.Pool(min(16, os.cpu_count() or 4)) as pool:
         for fails, st, ks, cnt, rows in pool.imap(_entry_worker, jobs):
             n += cnt
             nrows += rows
-            ctx.evals(3 * cnt)
+            ctx.evals(4 * cnt)
             keys.update(ks)
             for k, v in st.items():
                 stats[k] = stats.get(k, 0) + v
-            for (base, mode, dev), key, what in fails:
-                ctx.fail(key, "%s  [base %s, %s-type input, deviations %s]" % (what, base, ("GM2Calc", "SLHA")[mode], list(dev)),
-                         {"entry": {"base": base, "mode": mode, "dev": [[nm, list(v) if isinstance(v, tuple) else v] for nm, v in dev]}})
+            for jb, key, what in fails:
+                base, mode, dev = jb[:3]
+                order, sm = (jb[3], jb[4]) if len(jb) > 3 else (0, 0)
+                ctx.fail(key, "%s  [base %s, %s-type input, deviations %s, set-up order %d, SM input set %d]" % (what, base, ("GM2Calc", "SLHA")[mode], list(dev), order, sm),
+                         {"entry": {"base": base, "mode": mode, "order": order, "sm": sm, "dev": [[nm, list(v) if isinstance(v, tuple) else v] for nm, v in dev]}})
             if ctx.out_of_time("entry-point lattice"):
                 pool.terminate()
                 break
     for k in sorted(keys):
         ctx.nontrivial(("entry",) + k)
-    ctx.note("entry_point_cases(x3 runs each)", n)
+    ctx.note("entry_point_cases(x4 runs each, incl. every %dth case in all %d set-up orders)" % (ORDER_STRIDE, len(ORDERS)), n)
     ctx.note("entry_point_runs_checked", nrows)
     ctx.note("entry_point_distinct_(entry,tachyon set,unmonitored negative)", len(keys))
     ctx.note("entry_point_counts", stats)
@@ -668,7 +745,8 @@ def replay(ctx, path):
         e = d["data"]["entry"]
         dev = tuple((nm, tuple(v) if isinstance(v, list) else v) for nm, v in e["dev"])
         mssmrun.exe("plain")
-        fails = _entry_worker([(e["base"], e["mode"], dev)])[0]
+        grp = [(e["base"], e["mode"], dev, o, e.get("sm", 0)) for o in sorted({0, e.get("order", 0)})]
+        fails = _entry_worker(grp)[0]
         hit = [f for f in fails if f[1] == d["key"]] or fails
         for _, key, what in hit[:8]:
             print("replay: [%s] %s" % (key, what))
